@@ -60,9 +60,11 @@ type NodeDevice struct {
 
 // ArchiveDecoder is used to decode a catar archive.
 type ArchiveDecoder struct {
-	d    FormatDecoder
-	dir  string
-	last interface{}
+	d     FormatDecoder
+	dir   string
+	last  interface{}
+	depth int  // open directories
+	seen  bool // at least one node was decoded
 }
 
 // NewArchiveDecoder initializes a decoder for a catar archive.
@@ -150,7 +152,12 @@ loop:
 				break loop
 			}
 			a.dir = filepath.Dir(a.dir)
+			a.depth--
 		case nil:
+			// The stream has to end after the goodbye of the root directory
+			if entry != nil || a.depth != 0 || !a.seen {
+				return nil, io.ErrUnexpectedEOF
+			}
 			return nil, nil
 
 		default:
@@ -159,7 +166,9 @@ loop:
 	}
 
 	// If it doesn't have a payload or is a device/symlink, it must be a directory
+	a.seen = true
 	if payload == nil && device == nil && symlink == nil {
+		a.depth++
 		a.dir = path.Join(a.dir, name)
 		return NodeDirectory{
 			Name:   a.dir,
